@@ -805,3 +805,79 @@ func shallowClones(p *Program, prefixes ...string) (n int, bad []string, pos []s
 	}
 	return
 }
+
+// ruleTransactionIsLocked (C05/C06/C11): the locked-output soft rule looks at every input.
+func ruleTransactionIsLocked(r *Run, R1 string) {
+	// TransactionIsLocked: true iff some input address is in the locked set; false only after scanning all
+	fn := r.fn(R1, "transaction.TransactionIsLocked")
+	if fn != nil {
+		ff := r.P.Facts(fn)
+		for _, ex := range ff.Exits() {
+			var fs []string
+			for _, a := range ff.Must(ex.Block) {
+				fs = append(fs, a.S)
+			}
+			switch ex.Desc {
+			case "true":
+				_, m := matchAny([]string{"lookup(set{params.Distribution.LockedAddresses($0)[i]}[cipher.Address.String($1[i].Body.Address)])#1"}, fs)
+				r.Check(R1, "TransactionIsLocked: true only for an input owned by a locked address", r.P.Pos(ex.Pos), m, "")
+			case "false":
+				_, m := matchAny([]string{"forall(i < len($1)): !lookup(set{params.Distribution.LockedAddresses($0)[i]}[cipher.Address.String($1[i].Body.Address)])#1"}, fs)
+				r.Check(R1, "TransactionIsLocked: false only after every input was checked against the full locked set", r.P.Pos(ex.Pos), m, "")
+			default:
+				r.Check(R1, "TransactionIsLocked: unexpected return "+ex.Desc, r.P.Pos(ex.Pos), false, "")
+			}
+		}
+	}
+}
+
+// ruleUserConstraints (C06/C11): the user-level rule refuses a transaction when any of its outputs pays the
+// null address (every output is examined).
+func ruleUserConstraints(r *Run, rule string) {
+	r.RequireOnSuccess(rule, "transaction.VerifySingleTxnUserConstraints",
+		req("no output pays the null address (all outputs examined)", "forall(i < len($0.Out)): !cipher.Address.Null($0.Out[i].Address)"))
+	r.RejectsAre(rule, "transaction.VerifySingleTxnUserConstraints", 1, "transaction.NewErrTxnViolatesUserConstraint(*)")
+}
+
+// ruleKnownTxnVerdictRefreshed (C06/C11): re-injecting a transaction the pool already holds overwrites its
+// stored soft-rule verdict with the fresh one, unconditionally (valid again after the head moved, invalid again
+// after the rules tightened).
+func ruleKnownTxnVerdictRefreshed(r *Run, rule string) {
+	parent := r.fn(rule, "visor.UnconfirmedTransactionPool.InjectTransaction")
+	if parent == nil {
+		return
+	}
+	n := 0
+	for _, f := range r.P.ModFns {
+		if f.Parent() != parent {
+			continue
+		}
+		for _, b := range f.Blocks {
+			for _, in := range b.Instrs {
+				st, ok := in.(*ssa.Store)
+				if !ok {
+					continue
+				}
+				fa, ok := st.Addr.(*ssa.FieldAddr)
+				if !ok {
+					continue
+				}
+				sty := derefStruct(fa.X.Type())
+				if sty == nil || sty.Field(fa.Field).Name() != "IsValid" {
+					continue
+				}
+				n++
+				uncond := true
+				for _, rb := range f.Blocks {
+					if _, isRet := rb.Instrs[len(rb.Instrs)-1].(*ssa.Return); isRet && rb != b && !b.Dominates(rb) {
+						uncond = false
+					}
+				}
+				_, fromFree := st.Val.(*ssa.UnOp)
+				r.Check(rule, FnName(f)+": the stored verdict of a known transaction is overwritten with the fresh verdict on every path", r.P.Pos(in.Pos()), uncond && fromFree,
+					"the verdict is updated only under a condition: a transaction that passes the soft rules now stays recorded as invalid (or the reverse)")
+			}
+		}
+	}
+	r.Check(rule, "visor.UnconfirmedTransactionPool.InjectTransaction: the known-transaction branch rewrites IsValid", r.P.Pos(parent.Pos()), n == 1, fmt.Sprint(n))
+}
